@@ -30,6 +30,8 @@ for dp, dn, fn in sorted(os.walk(pkg)):
         tree = ast.parse(open(path, encoding="utf8").read())
         normalize.strip_noise(tree)
         normalize.canon_shapes(tree)
+        normalize.rotate_loops(tree)
+        normalize.unwrap_genexp_loops(tree)
         normalize.canon_flow(tree)
         normalize.canon_shapes(tree)
         normalize.fold_constants(tree)
